@@ -32,7 +32,7 @@ def run(ctx):
         if not d.ok:
             ctx.violation('file-rejected-by-strict-reader', det)
             continue
-        exp = judge.expected_objects(prog, r['outs'])[-1]
+        exp = judge.expected_at(prog, r['outs'], step)
         lfs = d.logical_files()
         n_lf = sum(1 for s in prog if s['op'] == 'lf')
         if len(lfs) != n_lf:
